@@ -150,6 +150,49 @@ fn check_encodings(word: &[u8], alpha: &[X], ctx: &mut Ctx) {
             }
         }
     }
+    // the null-skipping fold primitives every aggregation is built from (IterBasic): what they visit
+    let mut ys: Vec<Vec<X>> = vec![x.iter().rev().cloned().collect()];
+    if len > 1 {
+        let mut r = x.clone();
+        r.rotate_left(1);
+        ys.push(r);
+    }
+    for y in &ys {
+        let valid: Vec<Cell> = x.iter().filter_map(|v| v.map(Cell::f)).collect();
+        let sep = Cell::S("|".into());
+        let mut exp: Vec<Cell> = valid.clone();
+        exp.push(sep.clone());
+        exp.push(Cell::I(valid.len() as i64));
+        exp.extend(valid.clone());
+        exp.push(sep.clone());
+        exp.extend(valid.clone());
+        exp.push(sep.clone());
+        exp.push(Cell::I(valid.len() as i64));
+        exp.extend(valid.clone());
+        exp.push(sep);
+        for (a, b) in x.iter().zip(y.iter()) {
+            if let (Some(a), Some(b)) = (a, b) {
+                exp.push(Cell::f(*a));
+                exp.push(Cell::f(*b));
+            }
+        }
+        let runs = [
+            ("f64", run_fold_prims::<f64>(&x, y)),
+            ("Option<f64>", run_fold_prims::<Option<f64>>(&x, y)),
+            ("f32", run_fold_prims::<f32>(&x, y)),
+            ("Option<i32>", run_fold_prims::<Option<i32>>(&x, y)),
+            ("i64", run_fold_prims::<i64>(&x, y)),
+        ];
+        for (name, o) in runs {
+            let Some(o) = o else { continue };
+            ctx.eval(fam, outcome_hash(&o));
+            ctx.transitions += 1;
+            let ok = matches!(&o, Outcome::Ok(c) if cells_eq(c, &exp, exact_eq));
+            if !ok {
+                viol(ctx, "fold-primitives(vfold,vfold_n,vapply,vapply_n,vfold2)".into(), None, len * 100, json!({"family": fam, "word": word, "series": json_word(&x), "second": json_word(y), "elem": name}), show_cells(&exp), show_outcome(&o));
+            }
+        }
+    }
     for q in [0.0, 0.25, 0.5, 0.9, 1.0] {
         for m in QMETHODS {
             let a = run_quantile::<Vec<f64>, f64>(&v64, q, m);
